@@ -25,6 +25,7 @@ Definition pinned_forest_fingerprints : list (string * string) :=
   ("BaseGeo.__add__", "d35c4dad47d2f740077ed454bf00564b");
   ("BaseGeo.copy", "06788cdd63d45977dd936caf1a08dce9");
   ("BaseGeo.style:getter", "9e5f76e6c6c5f3e25d5b88c5bdf0367b");
+  ("BaseGeo._process_style_kwargs", "b74e9db76f531fc8f172269d24308fc2");
   ("utility.rec_obj_remover", "86d19be86dcf1a8ea5d8e3d042983519");
   ("utility.format_obj_input", "d3499600a43495e5ba74fd21068795fb");
   ("utility.filter_objects", "1c9a9f3b341b806f6dd0a40940f90134");
